@@ -124,7 +124,8 @@ Definition run_generate (a : list Z) : option (list Z) :=
   | None => None
   end.
 
-(* genguard: 1 if the debug assertions of the generators hold and they do not panic (debug build) *)
+(* genguard: 1 if the debug assertions of the generators hold and they do not panic (debug build);
+   0 also when the row is too short for the generators' reads *)
 Definition run_genguard (a : list Z) : option (list Z) :=
   match parse_gate a with
   | Some (g, r) =>
@@ -132,11 +133,11 @@ Definition run_genguard (a : list Z) : option (list Z) :=
     | Some (cs, r) =>
       match parse_vec 1 r with
       | Some (ws, []) =>
-        if sized g (length cs) (length ws)
-        then Some [match gate_generate g (gfps cs) (gfps ws) with
+        Some [if sized g (length cs) (length ws)
+              then match gate_generate g (gfps cs) (gfps ws) with
                    | Some _ => if gate_gen_guard g (gfps ws) then 1 else 0
-                   | None => 0 end]
-        else None
+                   | None => 0 end
+              else 0]
       | _ => None end
     | None => None end
   | None => None
@@ -186,6 +187,24 @@ Definition run_written (a : list Z) : option (list Z) :=
 Definition run_lowdeg (a : list Z) : option (list Z) :=
   match parse_gate a with
   | Some (g, [_; _]) => Some (map Z.of_nat [gate_degree g; gate_num_constraints g])
+  | _ => None
+  end.
+
+(* Abstract degree: the same polymorphic evaluator run over the "degree semiring" (nat, max, +) with
+   every wire and constant of degree 1 and field constants / the public-input hash of degree 0 yields an
+   upper bound on the degree of each constraint polynomial (add/sub -> max, mul -> +). *)
+Definition DegOps : FieldOps nat := {|
+  fzero := 0%nat; fone := 0%nat; fadd := Nat.max; fsub := Nat.max; fmul := Nat.add;
+  fneg := fun x => x; finv := fun x => x; feqb := Nat.eqb |}.
+Definition DegOfBase : OfBase nat := fun _ => 0%nat.
+Definition gate_abs_degree (g : gate) : nat :=
+  fold_right Nat.max 0%nat
+    (@gate_eval_unfiltered nat DegOps DegOfBase g (repeat 1%nat (gate_num_constants g))
+       (repeat 1%nat (Nat.max (gate_eval_wires g) (gate_num_wires g))) (repeat 0%nat 4)).
+(* absdeg <gate> = 1 iff the abstract degree does not exceed the declared degree *)
+Definition run_absdeg (a : list Z) : option (list Z) :=
+  match parse_gate a with
+  | Some (g, []) => if gate_wf g then Some [if Nat.leb (gate_abs_degree g) (gate_degree g) then 1 else 0] else None
   | _ => None
   end.
 
